@@ -11,6 +11,89 @@ pub struct C11;
 
 const NAMES: [&str; 5] = ["a", "b.o", "sub/c.o", "sub/d", "e.x.o"];
 
+/// A generated rule: `g.do` is produced by `g.do.do` from a template, and `g`
+/// is built by it.  The user then edits `g.do` by hand; a build that *uses*
+/// the edited rule, a change of the template and further builds follow.  The
+/// evaluator does not interpret generated rules, so this family is judged by
+/// the trace invariant and the bytes of the user's files only.
+fn generated_rule_case(rng: &mut Rng, seed: u64) -> Case {
+    let rules = vec![
+        (
+            "g.do.do".to_string(),
+            Rule {
+                version: 0,
+                stmts: vec![
+                    Stmt::IfChange(vec!["tmpl".into()]),
+                    Stmt::Out { mode: OutMode::RuleText("ifchange,s0".into()), pad: 3 },
+                ],
+            },
+        ),
+        (
+            "all.do".to_string(),
+            Rule {
+                version: 0,
+                stmts: vec![Stmt::IfChange(vec!["g.do".into()]), Stmt::IfChange(vec!["g".into()])],
+            },
+        ),
+    ];
+    let mut sc = Scenario {
+        family: "c11-generated-rule".into(),
+        files: vec![
+            ("s0".to_string(), source_content("s0", 0)),
+            ("tmpl".to_string(), source_content("tmpl", 0)),
+        ],
+        rules,
+        ..Default::default()
+    };
+    let build = |rng: &mut Rng, sc: &mut Scenario, t: &str| {
+        let prog = if rng.chance(1, 2) { "redo" } else { "redo-ifchange" };
+        let c = redo_cmd(rng, prog, &[t.to_string()], 2, 150);
+        sc.history.push(Step::Cmds(vec![c]));
+    };
+    build(rng, &mut sc, "all");
+    let edited = |ver: u32| Rule {
+        version: ver,
+        stmts: vec![Stmt::IfChange(vec!["s0".into()])],
+    };
+    let mut tv = 0;
+    let mut ever = 50;
+    for _ in 0..rng.range(1, 2) {
+        // the user edits the generated rule by hand ...
+        ever += 1;
+        sc.history.push(Step::SetRule { path: "g.do".into(), rule: Some(edited(ever)) });
+        // ... and the edited rule is used before anything looks at it as a target
+        if rng.chance(2, 3) {
+            build(rng, &mut sc, "g");
+        }
+        if rng.chance(1, 2) {
+            sc.history.push(Step::Write { path: "s0".into(), bytes: source_content("s0", ever) });
+            build(rng, &mut sc, "g");
+        }
+        tv += 1;
+        sc.history.push(Step::Write { path: "tmpl".into(), bytes: source_content("tmpl", tv) });
+        build(rng, &mut sc, "all");
+        if rng.chance(1, 2) {
+            build(rng, &mut sc, "g.do");
+        }
+    }
+    if rng.chance(1, 2) {
+        // the user removes the rule: redo generates it again
+        sc.history.push(Step::SetRule { path: "g.do".into(), rule: None });
+        build(rng, &mut sc, "all");
+    }
+    Case {
+        property: "C11".into(),
+        seed,
+        scenario: sc,
+        knobs: Knobs::draw(rng),
+        opts: PlayOpts {
+            record_events: true,
+            ..Default::default()
+        },
+        meta: BTreeMap::new(),
+    }
+}
+
 impl Property for C11 {
     fn id(&self) -> &'static str {
         "C11"
@@ -22,7 +105,7 @@ impl Property for C11 {
         }
     }
     fn rule(&self) -> &'static str {
-        "names matched by a specific rule, by default.o.do in the root (also for files in sub/) and by \
+        "six scenarios in seven: names matched by a specific rule, by default.o.do in the root (also for files in sub/) and by \
          sub/default.do; histories of 4-10 steps alternating builds (redo and redo-ifchange of one or \
          two names, -j1..3) with the user creating a file under such a name, overwriting a generated \
          target by hand, removing it again, and editing sources, so that files change role between \
@@ -33,9 +116,12 @@ impl Property for C11 {
          command, no script runs for a user-owned name, a requested user-modified generated file is \
          reported ('you modified it'/'not redoing'), after the user removes the file the rule builds \
          it again, from-scratch freshness of what was requested; non-trivial = >=1 script and >=1 \
-         user-owned file under a rule-matched name; distinct = (scenario, preemption signature)"
+         user-owned file under a rule-matched name; one in seven: a generated rule (g.do produced by g.do.do from a template, g built by it) that the user edits by hand, uses, and later removes, judged by the trace invariant only; distinct = (scenario, preemption signature)"
     }
     fn generate(&self, rng: &mut Rng, seed: u64, _tier: Tier, index: u64) -> Case {
+        if index % 7 == 6 {
+            return generated_rule_case(rng, seed);
+        }
         let files = vec![("s0".to_string(), source_content("s0", 0))];
         let mut rules: Vec<(String, Rule)> = Vec::new();
         let r = |deps: Vec<&str>| Rule {
@@ -314,7 +400,7 @@ impl Property for C11 {
             // what an interrupted build leaves behind is C10's business; after a
             // kill only the user's files are judged here
             let after_kill = killed.map_or(false, |k| idx >= k);
-            if g.results[0].status == Some(0) && !after_kill {
+            if g.results[0].status == Some(0) && !after_kill && case.scenario.family != "c11-generated-rule" {
                 v.extend(freshness(rec, idx, &req));
                 // after the user removed a file, the rule builds it again
                 for t in &req {
